@@ -270,6 +270,16 @@ func (c *rcluster) stop(w *rworker) {
 	}
 }
 
+// stopNoWait: graceful shutdown of a worker whose runner may be stuck in a call that is being held: wait for the
+// operator's deregistration only (the runner follows when its call returns).
+func (c *rcluster) stopNoWait(w *rworker) {
+	from := c.ev.len()
+	c.ev.add(ev{Kind: "stop", Node: w.opID})
+	go w.sr.Stop()
+	w.op.Stop()
+	c.waitEv(from, 5*time.Second, func(x ev) bool { return x.Kind == "deregister" && x.Node == w.opID })
+}
+
 // --------------------------------------------------------------- adapters ----
 
 type rjob struct {
@@ -388,6 +398,9 @@ func (o *rop) HandleEventBatch(ctx context.Context, batch []*workerpb.Event) err
 			}
 			err = w.op.HandleEvent(ctx, o.senderID, e)
 			if err == nil {
+				if b := e.GetCheckpointBarrier(); b != nil && o.fromW != nil {
+					o.c.ev.add(ev{Kind: "barrier.delivered", Node: o.id, Id: b.CheckpointId, Msg: fmt.Sprintf("%d->%d", o.fromW.i, w.i)})
+				}
 				break
 			}
 			// the production client retries Unavailable ("operator not ready") for ever
@@ -687,7 +700,7 @@ func (c *rcluster) view() rview {
 			} else {
 				srs = append(srs, x.Node)
 			}
-		case x.Kind == "every" && x.Node == "job" && x.Msg == "checkpointing":
+		case isRunLog(x):
 			v.running = true
 			v.asmOps, v.asmSrs = ops, srs
 		case x.Kind == "log" && x.Node == "job" && (x.Msg == "assembly not healthy" || x.Msg == "failed to start job"):
@@ -767,9 +780,12 @@ func (c *rcluster) healthyRunning() (rview, bool) {
 // mistaken for a dead one: a round ends early only when the job verifiably has nothing in flight.
 func (c *rcluster) recover(maxRounds int) (rview, bool) {
 	var v rview
-	// a truly dead system costs minTime; a live one returns as soon as it runs
+	// a truly dead system costs between minTime and maxTime; a live one returns as soon as it runs. A round lasts long only
+	// while a start() is in flight, which on a healthy tree takes milliseconds (it opens tiny databases): maxTime is three
+	// orders of magnitude above that, so that a loaded machine is never mistaken for a dead job, and bounds the whole call.
 	minTime := time.Now().Add(15 * time.Second)
-	for round := 0; round < maxRounds || time.Now().Before(minTime); round++ {
+	maxTime := time.Now().Add(recoverMax)
+	for round := 0; (round < maxRounds || time.Now().Before(minTime)) && time.Now().Before(maxTime); round++ {
 		if round >= maxRounds {
 			time.Sleep(20 * time.Millisecond)
 		}
@@ -813,6 +829,35 @@ func (c *rcluster) recover(maxRounds int) (rview, bool) {
 	return v, ok
 }
 
+var recoverMax = 45 * time.Second
+
+// awaitDeploy drives heartbeats and time (adding workers when fewer than W are reachable) until the job's NEXT start()
+// has sent its Deploy call to worker w - whose operator is still busy (an acknowledgement of it is held), so that the
+// call waits inside the operator. from: event index of the fault. Bounded: `rounds` clock advances of 3 s (two expire
+// a dead worker's heartbeat) with at most 1.25 s of real time each.
+func (c *rcluster) awaitDeploy(w *rworker, from int, rounds int) bool {
+	pred := func(x ev) bool { return x.Kind == "deploy" && x.Node == w.opID }
+	for round := 0; round < rounds; round++ {
+		if !w.alive() {
+			return false // the survivor went down as well (e.g. its runner's send to the lost worker failed): nothing to stage
+		}
+		for c.reachableWorkers() < c.W {
+			c.addWorker()
+		}
+		regDeadline := time.Now().Add(5 * time.Second)
+		for time.Now().Before(regDeadline) && !c.allRegisteredOnce() {
+			time.Sleep(200 * time.Microsecond)
+		}
+		c.heartbeats()
+		// the Deploy call follows the membership event within microseconds when a start() is spawned at all
+		if c.waitEv(from, 250*time.Millisecond, pred) || (c.startInFlight() && c.waitEv(from, time.Second, pred)) {
+			return true
+		}
+		c.clock.Advance(3 * time.Second)
+	}
+	return false
+}
+
 func (c *rcluster) failedStartsSince(from int) int {
 	n := 0
 	for _, x := range c.ev.since(from) {
@@ -846,7 +891,7 @@ func (c *rcluster) startInFlight() bool {
 		switch {
 		case x.Kind == "log" && x.Node == "job" && x.Msg == "starting":
 			in = true
-		case x.Kind == "every" && x.Node == "job" && x.Msg == "checkpointing":
+		case isRunLog(x):
 			in = false
 		case x.Kind == "log" && x.Node == "job" && x.Msg == "failed to start job":
 			in = false
@@ -943,6 +988,14 @@ func replayReal(bi int, beh []mbt.Step, in *mbt.Input, res *mbt.Result) {
 			c.setHold(s.Str("key"), true)
 		case "release":
 			c.releaseAll()
+		case "unhold": // let one held message go (and wait until the checkpoint is stuck at the next hold)
+			from := c.ev.len()
+			c.setHold(s.Str("key"), false)
+			if w := s.Str("await"); w != "" {
+				if !c.waitEv(from, 5*time.Second, func(x ev) bool { return x.Kind == "parked" && x.Msg == w }) {
+					res.Count("staging_skipped", 1)
+				}
+			}
 		case "tick":
 			from := c.ev.len()
 			had, ret := c.clock.tickTimeout("checkpointing", 5*time.Second)
@@ -952,6 +1005,11 @@ func replayReal(bi int, beh []mbt.Step, in *mbt.Input, res *mbt.Result) {
 			}
 			if w := s.Str("await"); w != "" { // wait until the checkpoint is stuck where the scenario wants it
 				if !c.waitEv(from, 5*time.Second, func(x ev) bool { return x.Kind == "parked" && x.Msg == w }) {
+					res.Count("staging_skipped", 1)
+				}
+			}
+			if d := s.Str("delivered"); d != "" { // ... and the barrier "<from>-><to>" has been taken by its operator
+				if !c.waitEv(from, 5*time.Second, func(x ev) bool { return x.Kind == "barrier.delivered" && x.Msg == d }) {
 					res.Count("staging_skipped", 1)
 				}
 			}
@@ -994,8 +1052,25 @@ func replayReal(bi int, beh []mbt.Step, in *mbt.Input, res *mbt.Result) {
 			}
 		case "stop":
 			if w := c.worker(s.Int("w")); w != nil && w.alive() {
-				c.stop(w)
+				if s.Bool("nowait") {
+					c.stopNoWait(w)
+				} else {
+					c.stop(w)
+				}
 				c.fence()
+			}
+		case "awaitdeploy": // the job re-assembles while an acknowledgement of survivor w is still held: its Deploy waits at the operator
+			w := c.worker(s.Int("w"))
+			from := 0
+			for i, x := range c.ev.since(0) {
+				if x.Kind == "kill" || x.Kind == "stop" {
+					from = i
+				}
+			}
+			if w == nil || !w.alive() || !c.awaitDeploy(w, from, 8) {
+				res.Count("staging_skipped", 1)
+			} else {
+				res.Count("late_ack_staged", 1)
 			}
 		case "mute": // the worker lives but its heartbeats do not arrive
 			if w := c.worker(s.Int("w")); w != nil {
@@ -1044,7 +1119,7 @@ func replayReal(bi int, beh []mbt.Step, in *mbt.Input, res *mbt.Result) {
 		viol(len(beh), "", "%s", msg)
 		return
 	}
-	if msg, known := c.requireCheckpoint(&v, 10); msg != "" {
+	if msg, known := c.requireCheckpoint(&v, 6); msg != "" {
 		if f := os.Getenv("MEMBERSHIP_STACKS"); f != "" {
 			buf := make([]byte, 1<<22)
 			buf = buf[:runtime.Stack(buf, true)]
@@ -1118,7 +1193,7 @@ func (c *rcluster) requireCheckpoint(vp *rview, ticks int) (string, string) {
 		had, ret := c.clock.tickTimeout("checkpointing", waitLong)
 		dbg("require tick %d returned %v", t, ret)
 		if !had {
-			return "the job is Running but has no checkpoint ticker", ""
+			return noTicker + fmt.Sprintf(" (assembly %v %v): %s", v.asmOps, v.asmSrs, c.tail(12)), ""
 		}
 		if !ret {
 			notes = append(notes, "the checkpoint tick did not return (StartCheckpoint blocked)")
@@ -1127,9 +1202,43 @@ func (c *rcluster) requireCheckpoint(vp *rview, ticks int) (string, string) {
 		// generous: a checkpoint of this tiny pipeline takes milliseconds
 		wait := 2 * time.Second
 		if t >= 3 {
-			wait = 6 * time.Second
+			wait = 5 * time.Second
 		}
-		c.waitEv(from, wait, func(x ev) bool { return x.Kind == "wrote" && x.Id > start })
+		// the checkpoint completes - or a live operator of the running assembly REFUSES one of its barriers: that barrier is
+		// lost for good (the runner that sent it treats the error as fatal and takes its worker down), so the checkpoint
+		// started after the recovery can never complete. Decided by the event, not by waiting.
+		refusedByMember := func(x ev) bool { // (called under the event log's lock: must not touch the log)
+			if x.Kind != "barrier.refused" || x.Id <= start {
+				return false
+			}
+			for _, id := range v.asmOps {
+				if id == x.Node {
+					return true
+				}
+			}
+			return false
+		}
+		c.waitEv(from, wait, func(x ev) bool { return (x.Kind == "wrote" && x.Id > start) || refusedByMember(x) })
+		if c.view().newest <= start {
+			since := c.ev.since(from)
+			mine := map[uint64]bool{} // the checkpoint THIS tick started
+			for _, y := range since {
+				if y.Kind == "startckpt" {
+					mine[y.Id] = true
+				}
+			}
+			for _, x := range since {
+				if refusedByMember(x) && mine[x.Id] {
+					known := ""
+					if strings.Contains(x.Msg, "checkpoint ID mismatch") {
+						known = "Dev_OpKeepsCheckpoint"
+					}
+					return fmt.Sprintf("checkpointing does not resume after the recovery: the job runs on live workers %v %v, but operator %s of that assembly refuses a barrier of checkpoint %d, "+
+						"the first one started after the recovery: %q - the checkpoint can never complete and the runner that sent the barrier shuts its worker down: %s",
+						v.asmOps, v.asmSrs, x.Node, x.Id, x.Msg, c.tail(25)), known
+				}
+			}
+		}
 		if c.view().newest > start {
 			if len(notes) > 0 && logOut != nil {
 				fmt.Fprintf(logOut, "requireCheckpoint succeeded at tick %d after: %v\n", t, notes)
